@@ -203,6 +203,9 @@ class kMinPathErrorCycles(walkmodel.AbstractWalkModelDiGraph):
         if self.k is None:
             self.k = self.G.get_width(edges_to_ignore=self.edges_to_ignore)
             utils.logger.info(f"{__name__}: k received as None, we set it to {self.k} (edge width of the graph)")
+        if not isinstance(self.k, int) or self.k <= 0:
+            utils.logger.error(f"{__name__}: k must be a positive integer, not {self.k}")
+            raise ValueError(f"k must be a positive integer, not {self.k}")
         self.optimization_options = dict(optimization_options) if optimization_options else {}
         self.subset_constraints_coverage = subset_constraints_coverage
         
